@@ -1191,6 +1191,7 @@ func (l *LocalCloseStart) ProcessEvent(event ProtocolEvent, env *Environment,
 			lnwallet.WithCustomSequence(mempool.MaxRBFSequence),
 			lnwallet.WithCustomLockTime(env.BlockHeight),
 			lnwallet.WithCustomPayer(lntypes.Local),
+			lnwallet.WithScriptDustLimits(),
 		)
 
 		// For taproot channels, we need to use the LocalMusigSession
@@ -1604,6 +1605,7 @@ func (l *LocalOfferSent) ProcessEvent(event ProtocolEvent, env *Environment,
 			lnwallet.WithCustomSequence(mempool.MaxRBFSequence),
 			lnwallet.WithCustomLockTime(env.BlockHeight),
 			lnwallet.WithCustomPayer(lntypes.Local),
+			lnwallet.WithScriptDustLimits(),
 		)
 
 		// For taproot channels, update NonceState with the new nonce
@@ -2051,6 +2053,7 @@ func (l *RemoteCloseStart) ProcessEvent(event ProtocolEvent, env *Environment,
 			lnwallet.WithCustomSequence(mempool.MaxRBFSequence),
 			lnwallet.WithCustomLockTime(msg.SigMsg.LockTime),
 			lnwallet.WithCustomPayer(lntypes.Remote),
+			lnwallet.WithScriptDustLimits(),
 		}
 
 		// If we keep our output and they didn't sign the version with
